@@ -65,6 +65,8 @@ func checkC02(c *Ctx) {
 	c.Rule("C02-R6", "a reslice past a constant prefix is dominated by a successful prefix comparison")
 	c.Rule("C02-R7", "index sites of the parsers and the collect loop are guarded (range index, len guard here or at every caller)")
 	c.Rule("C02-R8", "the wait-for-more gate counts one increment per parser call, each under that parser's 'partial' result")
+	c.Rule("C02-R14", "a recogniser that dispatches on the current byte rejects every byte it has no case for (a skipped byte is swallowed by the sequence recognised around it, and ESC followed by anything keeps the recogniser 'partial' until the timer expires)")
+	c.Expect("C02-R14", 1)
 	c.Rule("C02-R9", "a parser consumes exactly the bytes it matched: fixed read counts agree with the scan index at the match, countdown loops start at the scan index, prefix loops run to len(P) under HasPrefix(input, P), decoder loops run to nSrc, ReadBytes(d) only where the current byte is d")
 	c.Rule("C02-R10", "an input chunk handed to the parser goroutine over a channel has a backing array allocated for that chunk alone (every cycle through the send passes through the allocation)")
 	c.Rule("C02-R13", "the escape timeout only expires when 50 ms really passed without input: the timer is re-armed after a Stop whose 'already fired' answer drains the tick")
@@ -152,6 +154,7 @@ func checkC02(c *Ctx) {
 	}
 	checkChunkOwnership(c, p, "C02-R10")
 	checkTimerDiscipline(c, p, "C02-R13")
+	checkStrictDispatch(c, p, "C02-R14")
 	c.asRule("C14-R3", "C02-R12", func() { c14Prefix(c, p, buildDB(c, p)) })
 	recogniserConflicts(c, p, buildDB(c, p), "C02-R12")
 	collect := collectLoopFn(p)
